@@ -17,14 +17,14 @@ CHECKS = {
    technique="deterministic simulation with an active on-path adversary: enumerated and seeded forged response deliveries over session histories, reference chip as oracle",
    text="Real SecureMessaging/NfcSession against the reference chip's own secure messaging over seeded histories; at one exchange an active adversary delivers a forged response. Every single-bit flip and every truncation of short responses is enumerated per suite; "
         "DO deletion/duplication/reordering/re-encoding, SW mismatch, replays of earlier genuine responses, the next exchange's response, cross-session, re-wrap under another counter, plaintext, bare status, random and empty responses are seeded. "
-        "Oracle: anything accepted must equal exactly what the chip authenticated for that exchange."),
+        "Oracle: anything accepted must equal exactly what the chip authenticated for that exchange. Added after the seeded-change waves: short / empty / prefix MAC objects, additional well-formed data objects with an already present tag (after, before, between the genuine ones), multi-step plans (bare status words followed by the withheld or a replayed response). One known finding (naked-then-stale) is listed in known_findings.json."),
  "C10": dict(engine="smduel-cmd", cat="exploration", ref="DESIGN.md 6.10",
    technique="deterministic simulation: seeded command histories unwrapped by an independent chip-side implementation, SSC lockstep invariant after every exchange",
    text="Seeded histories of 1-2000 commands through the real NfcSession.DoAPDU with a session installed; every wire command is parsed by a strict ISO 7816-4 parser and authenticated/decrypted by the reference chip (CLA 0C, DO87/85 by INS parity, DO97 iff Le and equal to it, MAC under chip SSC+1, Le 00/0000), "
         "and terminal SSC = chip SSC is checked after every exchange incl. protected error statuses, counter wrap and transport-level rejections."),
  "C12": dict(engine="smduel-resp (+ hostile engines)", cat="exploration", ref="DESIGN.md 6.12",
    technique="deterministic simulation with byzantine chip / link / store feeding the parsers through the real seams; crash, step-bound and allocation monitors",
-   text="Boundary-scoped: adversarial bytes reach the parsers only as a chip or stored blob can deliver them (responses through the Transceiver seam, blobs through Verify). Monitors: panic, worker death re-executed alone, deterministic step bounds, bytes allocated per call against a linear budget."),
+   text="Boundary-scoped: adversarial bytes reach the parsers only as a chip or stored blob can deliver them (responses through the Transceiver seam, blobs through Verify). Monitors: panic, worker death re-executed alone, deterministic step bounds, bytes allocated per call against a linear budget. Also: nesting up to 14 000 definite-length levels, each file constructor measured alone against 1 MiB + 1 KiB per input byte, key-holder RSA signatures over short recoverable messages (live and in stored evidence), hostile answers to INTERNAL / EXTERNAL AUTHENTICATE (proto-aa, proto-bac engines)."),
  "C08": dict(engine="e2e", cat="exploration", ref="DESIGN.md 6.8",
    technique="deterministic simulation: whole reader.ReadDocument against seeded chip personalisations and issuer worlds, reference-model oracle of the expected outcome",
    text="The complete unmodified read pipeline runs against a generated world (SimPKI issuer, personalised SimChip, trust store) stratified over access control x curve x suite, with seeded DG subsets/sizes, chip response policies, terminal maxLe, password routes, AA/CA arrangements and all session randomness. "
@@ -32,7 +32,7 @@ CHECKS = {
  "C11": dict(engine="e2e-faults", cat="fault_enumeration", ref="DESIGN.md 6.11",
    technique="deterministic simulation with link fault injection: every exchange index x every fault variant enumerated per chip configuration, then seeded multi-fault plans",
    text="For each of 12 chip configurations the fault-free read fixes the exchange count; every exchange index x 45 link fault variants (loss, truncation, garble, oversize, bare status words, replay, swap, SM data-object edits, chip power cycle, dead link) is run as its own simulation (quick: 3 configurations rotating with the seed; thorough: all 12), followed by seeded 2-5 fault plans biased to protocol transitions. "
-        "Oracle: the call returns within the step bound, never panics; files read under secure messaging that are returned equal the chip's files; reported successes are steps the chip's own session record shows completed; DataTrusted only with identical files from a trusted issuer."),
+        "Oracle: the call returns within the step bound, never panics; files read under secure messaging that are returned equal the chip's files; reported successes are steps the chip's own session record shows completed; DataTrusted only with identical files from a trusted issuer. Added after the seeded-change waves: quick runs every configuration (the three rotating ones with the full grid, the others with a reduced grid); a read that completes without any recorded failure must hold every LDS file the fault-free read returns; single-file reads (NfcSession.ReadFile, clear and under each suite, all chunking behaviours) with one or two link faults - under secure messaging any differing file is a violation, in the clear only when a response longer than the requested Le was accepted."),
  "C14": dict(engine="store-verify", cat="fault_enumeration", ref="DESIGN.md 6.14",
    technique="deterministic simulation: live session -> store -> offline verifier, with a byzantine store enumerating a rewrite of every evidence field and file",
    text="A live simulated session (CA over every curve/suite/key-id arrangement, PACE-CAM, AA RSA/ECDSA) is exported, passed through the simulated store and verified offline with the same trust store: PA, completeness and each mechanism verdict must equal the live ones. "
@@ -43,14 +43,14 @@ CHECKS = {
  "C01": dict(engine="pki-forgery (+ store-verify)", cat="exploration", ref="DESIGN.md 6.1",
    technique="deterministic simulation of byzantine parties (issuer, chip file store, trust-store operator) and at-rest corruption, with by-construction verdicts from the issuer's region map",
    text="Each run builds a genuine world with the simulated issuer (accepted first), then applies exactly one forgery or drift fault (A1-A10: DG flips/replacement/injection, altered hash list, re-signing by untrusted chains in five variants, anchor and DS attribute faults, signing time outside a validity window by seconds, country mismatch, the same on CardSecurity, master list faults, random byte substitutions classified by region) and takes the verdict through the real PassiveAuth / CreateCertPoolFromSignedData and, in the store engine, the offline verifier. Acceptance in a must-reject class is the violation. "
-        "Applicability note: the deciding faults are byzantine behaviour of parties and corruption of durable state, not arbitrary byte strings (DESIGN.md 6.1)."),
+        "Applicability note: the deciding faults are byzantine behaviour of parties and corruption of durable state, not arbitrary byte strings (DESIGN.md 6.1). Master lists forged by a party outside the supplied root that ships its own anchor (own CA listed and embedded; self-issued CA-capable signer) must be rejected."),
  "C02": dict(engine="hostile-chip + session-sweep", cat="exploration", ref="DESIGN.md 6.2",
    technique="deterministic simulation of adversarial chips end to end (live and offline) plus exhaustive sweep of the step-outcome combinations against the gating invariant",
    text="Ten adversarial chip personalisations (clones without keys, substituted AA/CA/CAM keys with untouched or untrusted-re-signed SOD, withheld DG14/DG15, CardAccess not contained in DG14, CardSecurity that does not verify) crossed with trusted/untrusted issuers are read end to end, then the serialised result is verified offline; the summary must not be trusted / chip-authentic as the statement lists. "
-        "The gating invariant (DataTrusted => PA and completeness; named mechanism => that protocol, PA, and CardSec for CAM) is evaluated on every DocumentEx and swept over all 324 outcome combinations."),
+        "The gating invariant (DataTrusted => PA and completeness; named mechanism => that protocol, PA, and CardSec for CAM) is evaluated on every DocumentEx and swept over all 324 outcome combinations. Hash lists of the security object in every order (ascending, descending, shuffled, one adjacent swap, one entry at the end) so that a withheld DG14/DG15 is looked up behind larger numbers."),
  "C09": dict(engine="pki-profile", cat="exploration", ref="DESIGN.md 6.9",
    technique="deterministic simulation of the issuer over the issuing-profile matrix (fault-free twin of C01)",
-   text="The simulated issuer (own X.509/CMS writers and signers) issues documents over the profile matrix - CSCA and DS keys RSA 1024-4096 / all 11 curves named and explicit, PKCS#1 v1.5 / PSS / ECDSA, SHA-1..SHA-512, both SID forms, LDS SO v0/v1, signing time absent / inside / exactly at the DS and CSCA window edges, NULL-less digest identifiers, indefinite lengths, extra certificates, re-ordered or UTF8 names, decoy and same-key-identifier anchors, CardSecurity - and the real PassiveAuth must succeed and return the [DS, CSCA] chain."),
+   text="The simulated issuer (own X.509/CMS writers and signers) issues documents over the profile matrix - CSCA and DS keys RSA 1024-4096 / all 11 curves named and explicit, PKCS#1 v1.5 / PSS / ECDSA, SHA-1..SHA-512, both SID forms, LDS SO v0/v1, signing time absent / inside / exactly at the DS and CSCA window edges, NULL-less digest identifiers, indefinite lengths, extra certificates, re-ordered or UTF8 names, decoy and same-key-identifier anchors, CardSecurity - and the real PassiveAuth must succeed and return the [DS, CSCA] chain. Validity-neutral variations are drawn independently of each other: re-encoded issuer name in the signer identifier, additional embedded certificates before or after the signer's, embedded CSCA certificate, hash list order."),
  "C04": dict(engine="proto-pace", cat="exploration", ref="DESIGN.md 6.4",
    technique="deterministic simulation: real PACE against the reference chip over the full suite x curve x mapping matrix with ground edge slices, plus an on-path adversary altering exactly one chip message",
    text="Real pace.DoPACE over a real NfcSession against the reference chip (own KDF, nonce encryption, generic mapping, tokens, CAM data) for every parameter id 8-18 x suite x GM/CAM, all password routes and MRZ layouts, seeded nonces and ephemerals, shared secrets / public coordinates ground to leading zero octets, several and unsupported PACE infos. Genuine: success, identical session keys and counter on both sides, next protected exchange authenticates. "
@@ -66,11 +66,11 @@ CHECKS = {
  "C07": dict(engine="proto-aa", cat="exploration", ref="DESIGN.md 6.7",
    technique="deterministic simulation: real Active Authentication against the reference signer and an adversarial chip answer, reference verifier as oracle",
    text="Real activeauth.DoActiveAuth inside an installed session against the reference signer (own ISO 9796-2 and ECDSA): RSA 1024-4096 x five trailers x M1 policies, ECDSA on 11 curves plain and DER, supplied challenges: genuine accepted, challenge transmitted and recorded. "
-        "Adversarial answers (bit flips, other challenge, other key, range violations, malleable n-s, digest over M1 only, wrong trailers, trailing bytes, random) are accepted only if the reference verifier confirms a valid signature over exactly the challenge sent; offline nonce binding is checked in the store engine."),
+        "Adversarial answers (bit flips, other challenge, other key, range violations, malleable n-s, digest over M1 only, wrong trailers, trailing bytes, random) are accepted only if the reference verifier confirms a valid signature over exactly the challenge sent; offline nonce binding is checked in the store engine. Offline nonce binding (store engine under this property): live reads with a caller-supplied challenge are exported and verified offline against a rewritten / truncated / extended recorded nonce or another challenge, with and without a broken signature; every mismatch must be a hard error of Verify. Key-holder signatures over short or oddly framed recoverable messages must be rejected without a panic."),
  "C20": dict(engine="sched", cat="exploration", ref="DESIGN.md 6.20",
    technique="deterministic simulation of caller threads: seeded cooperative scheduler choosing who runs at every yield point, in a race-detector build, with porcupine linearizability against sequential re-execution",
    text="2-4 real goroutines with scripts of public API calls run under the seeded scheduler (one released at a time; yield points inside gmrtd's critical sections: Transceive, status callback, slog, crypto/rand.Reader, CertPool; hand-offs hidden from the race detector so only gmrtd's locks order the workers). Scenarios: shared reader.Reader, shared verifier.Verifier, independent instances sharing each CertPool type, mobile bindings with concurrent first use of the built-in trust store in a fresh process. "
-        "Oracles: zero race reports; the recorded history is linearizable w.r.t. the real code executed alone on a fresh world with the same per-operation randomness; independent instances equal their lone execution; master lists loaded once; no deadlock."),
+        "Oracles: zero race reports; the recorded history is linearizable w.r.t. the real code executed alone on a fresh world with the same per-operation randomness; independent instances equal their lone execution; master lists loaded once; no deadlock. Yield points also inside the library: run.sh instruments a scratch copy of the tree under test (go/ast, a yield call at every function and loop body of reader, verifier, mobile, cms, passiveauth, document) and builds the simulator against it; /repo itself carries no hook."),
 }
 
 NOT_APPLICABLE = {
